@@ -816,7 +816,7 @@ func (c *Client) CreateSession(ctx context.Context, cfg *uasc.SessionConfig) (*S
 		err := sc.VerifySessionSignature(res.ServerCertificate, nonce, res.ServerSignature.Signature)
 		if err != nil {
 			log.Printf("error verifying session signature: %s", err)
-			return nil
+			return err
 		}
 
 		// Ensure we have a valid identity token that the server will accept before trying to activate a session
@@ -880,7 +880,7 @@ func (c *Client) ActivateSession(ctx context.Context, s *Session) error {
 	sig, sigAlg, err := sc.NewSessionSignature(s.serverCertificate, s.serverNonce)
 	if err != nil {
 		log.Printf("error creating session signature: %s", err)
-		return nil
+		return err
 	}
 
 	switch tok := s.cfg.UserIdentityToken.(type) {
